@@ -361,6 +361,7 @@ func (l *Lexer) Split() []*Token {
 			ret = append(ret, token)
 		}
 	}
+	simYield("lexer.done")
 	return ret
 }
 
